@@ -309,6 +309,29 @@ func hostiles() []hostile {
 			rawSend(sc.s.port, session[:k], session[k:])
 		}
 	})
+	add("anonymous-clients", func(sc *scen, c *hx.Ctx) {
+		// connections with an empty client id, clean and persistent, alone and in a burst: each gets a session of its own and
+		// none of them displaces another (one of the witnesses is anonymous too)
+		var ps []*peer
+		for i := 0; i < 12; i++ {
+			p := sc.dial(fmt.Sprintf("anon%d", i), i%2 == 0)
+			p.sendConnect("", i%3 != 0, &packet.Message{Topic: "all", Payload: []byte("anon"), QOS: packet.QOS(i % 3)})
+			ps = append(ps, p)
+		}
+		for i, p := range ps {
+			if p.await(isConnack, long) != nil {
+				p.subscribe(1, "#", i%3)
+				p.send(&packet.Publish{ID: 3, Message: packet.Message{Topic: "anon/x", Payload: []byte("a"), QOS: 1}})
+			}
+		}
+		for i, p := range ps {
+			if i%2 == 0 {
+				p.close()
+			} else {
+				p.send(&packet.Disconnect{})
+			}
+		}
+	})
 	add("storm", func(sc *scen, c *hx.Ctx) {
 		var wg sync.WaitGroup
 		for i := 0; i < 40; i++ {
@@ -386,6 +409,12 @@ func hostileScenario(o *out, c *hx.Ctx, h hostile) {
 	pub := sc.dial("wpub", true)
 	// a second witness subscribes to everything: whatever a hostile client manages to publish is forwarded to it
 	wall := sc.dial("wall", true)
+	// an anonymous witness: it has no client id that anybody could present
+	anon := sc.dial("wanon", true)
+	if anon.connect("", true, nil) == nil || !anon.subscribe(1, "all", 0) {
+		sc.direct("witness", false, "the anonymous witness could not connect")
+		return
+	}
 	if wall.connect("wall", true, nil) == nil || !wall.subscribe(1, "#", 1) {
 		sc.direct("witness", false, "the catch-all witness could not connect")
 		return
@@ -431,8 +460,8 @@ func hostileScenario(o *out, c *hx.Ctx, h hostile) {
 	}
 	complete := waitFor(3*long, func() bool { return len(got()) >= sent+1 })
 	// the witnesses are still connected and every numbered message arrived, in order
-	alive := sub.isOpen() && pub.isOpen() && wall.isOpen()
-	sc.direct("witness_connected", alive, "all three witness connections are still open")
+	alive := sub.isOpen() && pub.isOpen() && wall.isOpen() && anon.isOpen()
+	sc.direct("witness_connected", alive, fmt.Sprintf("witness connections still open: subscriber=%v publisher=%v catch-all=%v anonymous=%v", sub.isOpen(), pub.isOpen(), wall.isOpen(), anon.isOpen()))
 	g := got()
 	missing := []int{}
 	for i := 0; i < sent; i++ {
@@ -447,10 +476,10 @@ func hostileScenario(o *out, c *hx.Ctx, h hostile) {
 	ok, d := checkOrder(sub.received())
 	sc.direct("witness_order", ok, d)
 	okSub := sub.subscribe(9, "probe/#", 1)
-	okPing := sub.ping() && pub.ping() && wall.ping()
+	okPing := sub.ping() && pub.ping() && wall.ping() && anon.ping()
 	acked := waitFor(long, func() bool { return ackCount(pub) >= sent+1 })
 	sc.direct("witness_probe", complete && g[sent] && okSub && okPing && acked,
-		fmt.Sprintf("after the hostile peer: a further QoS 2 message delivered=%v, every publish acknowledged to the publisher=%v, new subscription acknowledged=%v, PINGREQ answered on all three=%v", g[sent], acked, okSub, okPing))
+		fmt.Sprintf("after the hostile peer: a further QoS 2 message delivered=%v, every publish acknowledged to the publisher=%v, new subscription acknowledged=%v, PINGREQ answered on all four=%v", g[sent], acked, okSub, okPing))
 }
 
 // faultAtCallSite: one backend call site fails for every call made by the victim's connection; the victim's connection ends,
